@@ -45,6 +45,10 @@ def tree():
         "src/short.js": js("smallJs", 4),
         "src/deep/more.js": js("deepJs", 45) + "\n" + js("tie1", 45) + "\n" + js("tie2", 45),
         "src/deep/.dot.js": js("dotJs", 61),
+        # language decided by a secondary extension / by the whole file name (no include guard in the header on purpose)
+        "inc/api.h": "/* api */\nint api_fn(int a)\n{\n" + "    a = a + 1;\n" * 40 + "    return a;\n}\n",
+        "BUILD": py("build_rule", 33),
+        "LICENSE": "def not_code():\n" + "    x = 1\n" * 40,
     }
     return t
 
@@ -66,6 +70,9 @@ def setup(root: Path, excl):
     harness.write_files(root, tree())
     if excl == "gitignore":
         (root / ".gitignore").write_text("gen/\n")
+    if excl == "gitignore-negation":
+        # last match wins: one file below the excluded directory is re-included
+        (root / ".gitignore").write_text("gen\n!gen/excl.py\n!tests/t.py\n*.js\n!src/long.js\n")
 
 
 def configure(excl):
@@ -182,7 +189,7 @@ def invocations():
     dirs = all_dirs()
     singles = [[("rel", f)] for f in files] + [[("rel", d)] for d in dirs] + [[("abs", d)] for d in dirs]
     pairs = []
-    for a, b in itertools.combinations(["long.py", "latin.py", "trunc.py", "gen/excl.py", "src", "src/deep", "gen", "tests", "notes.txt"], 2):
+    for a, b in itertools.combinations(["long.py", "latin.py", "trunc.py", "gen/excl.py", "src", "src/deep", "gen", "tests", "notes.txt", "inc/api.h", "BUILD"], 2):
         pairs.append([("rel", a), ("rel", b)])
         pairs.append([("rel", a), ("abs", b)] if "." not in b else [("rel", b), ("abs", "src")])
     return singles + pairs
@@ -204,8 +211,8 @@ def replay(case):
 
 def run(ctx: core.Ctx):
     inv = invocations()
-    combos = [(a, e) for a in inv for e in ("none", "config", "gitignore")]
-    ctx.bounds = {"files": sorted(tree()), "directories": all_dirs(), "invocations": len(inv), "exclusions": ["none", "config gen/", ".gitignore gen/"]}
+    combos = [(a, e) for a in inv for e in ("none", "config", "gitignore", "gitignore-negation")]
+    ctx.bounds = {"files": sorted(tree()), "directories": all_dirs(), "invocations": len(inv), "exclusions": ["none", "config gen/", ".gitignore gen/", ".gitignore gen !gen/excl.py !tests/t.py *.js !src/long.js"]}
     ctx.rule = ("case = (argument list, exclusion configuration): every file as relative path, every directory as relative and as absolute path, and pairs "
                 "of arguments; each runs the real check_command (cwd = root) and scan_path (transitions = 2). Full product in both tiers.")
     step = max(1, len(combos) // (ctx.workers * 3) + 1)
